@@ -162,6 +162,7 @@ def components():
     add('eb1', lambda i: [('h%d' % i, I(1))] + emb(i, [('x%de' % i, I(1)), ('y%de' % i, D(F('x%de' % i)))]))
     add('eb2', lambda i: emb(i, [('x%de' % i, I(2, end='little')), ('y%de' % i, I(3, signed=True)), ('z%de' % i, D(C(1), default=b'q'))]))
     add('ebs', lambda i: emb(i, [('n%de' % i, I(1)), ('l%de' % i, S(I(1), F('n%de' % i)))]) + [('t%d' % i, I(1))])
+    add('ebd', lambda i: emb(i, [('n%de' % i, dict(I(1), desc={'k': 'autolength', 'of': 'd%de' % i})), ('d%de' % i, D(F('n%de' % i)))]) + [('t%d' % i, I(1))])
     add('p_opt', lambda i: [('t%d' % i, I(1)), ('o%d' % i, pos(O(I(1), F('t%d' % i)), 'aligned', C(2)))])
     return c
 
